@@ -760,6 +760,8 @@ SET_METHODS = {"add": _s_add, "update": _s_update, "discard": _s_discard, "remov
                "clear": lambda it, v, a, k: v.items.clear(),
                "copy": lambda it, v, a, k: PySet(v.items),
                "issubset": lambda it, v, a, k: all(ops.set_has(PySet(it.to_list(a[0])), x) for x in v.items),
+               "issuperset": lambda it, v, a, k: all(ops.set_has(v, x) for x in it.to_list(a[0])),
+               "isdisjoint": lambda it, v, a, k: not any(ops.set_has(v, x) for x in it.to_list(a[0])),
                "__contains__": lambda it, v, a, k: ops.set_has(v, a[0]),
                "__iter__": lambda it, v, a, k: GenObj(it.iterate(v), "set_iter"),
                "__len__": lambda it, v, a, k: len(v.items),
